@@ -660,7 +660,7 @@ func checkPeerIDForm(f *ssa.Function, v ssa.Value) string {
 		}
 		s, okc := constString(b.Y)
 		p, okp := b.X.(*ssa.Parameter)
-		return okc && s == "" && okp && p.Name() == "p"
+		return okc && s == "" && okp && paramIs(p, "p")
 	}
 	notDisable := func(x ssa.Value) bool {
 		base, neg := stripNot(x)
